@@ -190,8 +190,10 @@ def run_transform(R, name, B, L):
 
 
 TRANSFORM_ENVS = ["Knapsack", "Maze@3x3", "Snake", "Cleaner@3x3x1", "GraphColoring", "TSP", "SlidingTilePuzzle", "Connector", "Minesweeper", "CVRP",
-                  "Tetris", "RubiksCube", "LevelBasedForaging", "JobShop", "Sudoku", "FlatPack", "Sokoban", "MultiCVRP", "Game2048"]
-THOROUGH_EXTRA = ["RobotWarehouse", "BinPack@csv"]
+                  "Tetris", "RubiksCube", "LevelBasedForaging", "JobShop", "Sudoku"]
+# minutes each (large batched encodings): thorough tier only
+THOROUGH_EXTRA = ["FlatPack", "Sokoban", "MultiCVRP", "Game2048", "RobotWarehouse", "BinPack@csv"]
+JOBTIMEOUT = {"quick": 600, "thorough": 3600}
 
 
 def jobs(tier, seed):
